@@ -55,6 +55,15 @@ def prepare(ctx):
         funcs.append(extract.cut_function(src, fn))
         log.append("extracted verbatim: %s" % fn)
     extract.write(ctx, "thread_link_ring.inc", "\n".join(funcs) + "\n")
+    # ---- interference variant: every load of the OTHER side's index goes through an observation point at which that
+    # side may have made any progress its contract allows (reader-side functions observe `write`, writer-side `read`)
+    obs = []
+    for fn, pat, rep in (("ring_read_size", r"ring->write\b", "OBS_WRITE(ring)"), ("ring_read_vector", r"ring->write\b", "OBS_WRITE(ring)"),
+                         ("ring_write_size", r"ring->read\b(?!_)", "OBS_READ(ring)")):
+        t = extract.cut_function(src, fn)
+        t = extract.apply_rules(t, [("observe", pat, rep, (0, 99))], log, fn + " (interference variant)")
+        obs.append(t)
+    extract.write(ctx, "thread_link_ring_obs.inc", "\n".join(obs) + "\n")
     # ---- ThreadLink methods
     meths = []
     for name, occ, ret in (("writeArray", 1, "void"), ("raw_write", 1, "void"), ("hasNext", 1, "bool"), ("read", 1, "msg_t")):
@@ -110,6 +119,14 @@ def obligations(ctx):
        replace=["ring_write_size", "ring_write", "rtosc_amessage"], defs=tl)
     ob("ThreadLink_read.contract", "h_tl_read", "ThreadLink_read",
        replace=["ring_read_vector", "ring_read", "rtosc_message_ring_length"], defs=tl)
+    # interference: the other thread moves ITS index (within its contract) at every point where this side loads it
+    IH = "harness/C06/interference.c"
+    for e in ("h_obs_read_vector", "h_obs_read_size", "h_obs_write_size"):
+        obls.append(Obl("C06.interference.%s" % e[6:], "C06", IH, entry=e, defines=big, mode="proof", timeout=1500, mem_gb=12,
+                        functions=["ring_" + e[6:]], replayable=False,
+                        note="loop-free, all ring sizes 2..2^30, all index values, arbitrary progress of the other side at each load"))
+    obls.append(Obl("C06.canary.interference", "C06", IH, entry="h_obs_read_vector", defines={"RING_SMAX": "16"}, mode="proof",
+                    timeout=900, canary=True))
     # bounded, replayable: all short sequential histories on small rings against a reference FIFO
     hk, hs = ("4", "8") if ctx.tier == "quick" else ("6", "8")
     obls.append(Obl("C06.history.sequential", "C06", "harness/C06/history.c", entry="h_history", defines={"HK": hk, "HS": hs},
